@@ -12,29 +12,29 @@ this file; they are extracted from /repo by the units.
 # ------------------------------------------------------------------------------------------------
 INPUT_SIGS = {
     'byte_offset': ('fn byte_offset(&self) -> (r: usize)', '''
-        requires self.inv(),
+        requires input_inv(self.ctx(), self.off()),
         ensures r == self.off(),'''),
     'input': ("fn input(&self) -> (r: &'i str)", '''
         ensures r == self.ctx().input,'''),
     'start': ('fn start(&self) -> (r: usize)', '''
-        requires self.inv(),
+        requires input_inv(self.ctx(), self.off()),
         ensures r == self.ctx().start,'''),
     'end': ('fn end(&self) -> (r: usize)', '''
-        requires self.inv(),
+        requires input_inv(self.ctx(), self.off()),
         ensures r == self.ctx().end,'''),
     'at_start': ('fn at_start(&self) -> (r: bool)', '''
-        requires self.inv(),
+        requires input_inv(self.ctx(), self.off()),
         ensures r == (self.off() == self.ctx().start),'''),
     'at_end': ('fn at_end(&self) -> (r: bool)', '''
-        requires self.inv(),
+        requires input_inv(self.ctx(), self.off()),
         ensures r == (self.off() == self.ctx().end),'''),
     'span': ("fn span(&self, end: Self) -> (r: Span<'i>)", '''
-        requires self.inv(), end.inv(), self.ctx() == end.ctx(), self.off() <= end.off(),
+        requires input_inv(self.ctx(), self.off()), input_inv(end.ctx(), end.off()), self.ctx() == end.ctx(), self.off() <= end.off(),
         ensures r == (Span { input: self.ctx().input, start: self.off() as usize, end: end.off() as usize }),
                 r.wf(),'''),
     'match_string': ("fn match_string(&mut self, string: &'i str) -> (res: bool)", '''
-        requires old(self).inv(),
-        ensures final(self).ctx() == old(self).ctx(), final(self).inv(),
+        requires input_inv(old(self).ctx(), old(self).off()),
+        ensures final(self).ctx() == old(self).ctx(), input_inv(final(self).ctx(), final(self).off()),
                 res == is_prefix(string.spec_bytes(), rest(old(self).ctx(), old(self).off())),
                 res ==> final(self).off() == old(self).off() + string.spec_bytes().len(),
                 !res ==> final(self).off() == old(self).off(),'''),
@@ -50,8 +50,9 @@ def input_trait_decl(methods):
 pub trait Input<'i>: Copy {
     spec fn ctx(&self) -> Ctx<'i>;
     spec fn off(&self) -> nat;
-    open spec fn inv(&self) -> bool { input_inv(self.ctx(), self.off()) }
-''' + ''.join(body) + '}\n'
+''' + ''.join(body) + '''}
+pub open spec fn inv<'i, I: Input<'i>>(i: I) -> bool { input_inv(i.ctx(), i.off()) }
+'''
 
 
 CORE = r'''
@@ -127,10 +128,59 @@ pub open spec fn input_inv(c: Ctx, pos: nat) -> bool {
 pub open spec fn rest(c: Ctx, pos: nat) -> Seq<u8> { bytes_of(c).subrange(pos as int, c.end as int) }
 pub open spec fn is_prefix(p: Seq<u8>, s: Seq<u8>) -> bool { p.len() <= s.len() && s.subrange(0, p.len() as int) == p }
 pub open spec fn stack_wf(st: Seq<Span>) -> bool { forall|k: int| 0 <= k < st.len() ==> (#[trigger] st[k]).wf() }
-pub open spec fn stack_all_wf(v: StackView<Span>) -> bool {
-    stack_wf(v.cur) && forall|k: int| 0 <= k < v.snaps.len() ==> stack_wf(#[trigger] v.snaps[k])
+pub open spec fn snaps_wf(sn: Seq<Seq<Span>>) -> bool { forall|k: int| 0 <= k < sn.len() ==> stack_wf(#[trigger] sn[k]) }
+pub open spec fn stack_all_wf(v: StackView<Span>) -> bool { stack_wf(v.cur) && snaps_wf(v.snaps) }
+// Facts about push / drop_last / last used by every snapshot-restore and push-pop argument; proved
+// here once and made available everywhere (no per-statement proof hints in the extracted bodies).
+pub broadcast proof fn lemma_push_drop_last<T>(s: Seq<T>, x: T)
+    ensures (#[trigger] s.push(x)).drop_last() == s, s.push(x).last() == x,
+{}
+pub broadcast proof fn lemma_stack_wf_push(s: Seq<Span>, x: Span)
+    requires stack_wf(s), x.wf(),
+    ensures #[trigger] stack_wf(s.push(x)),
+{
+    assert forall|k: int| 0 <= k < s.push(x).len() implies (#[trigger] s.push(x)[k]).wf() by {
+        if k < s.len() { assert(s.push(x)[k] == s[k]); }
+    }
+}
+pub broadcast proof fn lemma_stack_wf_drop_last(s: Seq<Span>)
+    requires stack_wf(s), s.len() > 0,
+    ensures #[trigger] stack_wf(s.drop_last()), s.last().wf(),
+{
+    assert forall|k: int| 0 <= k < s.drop_last().len() implies (#[trigger] s.drop_last()[k]).wf() by {
+        assert(s.drop_last()[k] == s[k]);
+    }
+}
+pub broadcast proof fn lemma_stack_wf_last(s: Seq<Span>)
+    requires stack_wf(s), s.len() > 0,
+    ensures #[trigger] s.last().wf(),
+{}
+pub broadcast proof fn lemma_snaps_wf_push(sn: Seq<Seq<Span>>, c: Seq<Span>)
+    requires snaps_wf(sn), stack_wf(c),
+    ensures #[trigger] snaps_wf(sn.push(c)),
+{
+    assert forall|k: int| 0 <= k < sn.push(c).len() implies stack_wf(#[trigger] sn.push(c)[k]) by {
+        if k < sn.len() { assert(sn.push(c)[k] == sn[k]); }
+    }
+}
+pub broadcast proof fn lemma_snaps_wf_drop_last(sn: Seq<Seq<Span>>)
+    requires snaps_wf(sn), sn.len() > 0,
+    ensures #[trigger] snaps_wf(sn.drop_last()), stack_wf(sn.last()),
+{
+    assert forall|k: int| 0 <= k < sn.drop_last().len() implies stack_wf(#[trigger] sn.drop_last()[k]) by {
+        assert(sn.drop_last()[k] == sn[k]);
+    }
+}
+pub broadcast proof fn lemma_snaps_wf_last(sn: Seq<Seq<Span>>)
+    requires snaps_wf(sn), sn.len() > 0,
+    ensures stack_wf(#[trigger] sn.last()),
+{}
+pub broadcast group group_stack {
+    lemma_push_drop_last, lemma_stack_wf_push, lemma_stack_wf_drop_last, lemma_stack_wf_last,
+    lemma_snaps_wf_push, lemma_snaps_wf_drop_last, lemma_snaps_wf_last,
 }
 pub type Res<'i> = Option<(nat, Seq<Span<'i>>)>;
+
 '''
 
 TRAITS = r'''
@@ -139,7 +189,7 @@ TRAITS = r'''
 // Both methods get the same postcondition over the same `sem` — agreement of parse and check (C03) is
 // a consequence of the two contracts, never of the bodies.
 pub open spec fn post_some<'i, I: Input<'i>>(input: I, st0: StackView<Span<'i>>, out: I, st1: StackView<Span<'i>>, p: nat, s: Seq<Span<'i>>) -> bool {
-    out.ctx() == input.ctx() && out.off() == p && out.inv() && p >= input.off()
+    out.ctx() == input.ctx() && out.off() == p && inv(out) && p >= input.off()
     && st1.cur == s && st1.snaps == st0.snaps && stack_all_wf(st1)
 }
 pub open spec fn post_none<'i>(st0: StackView<Span<'i>>, st1: StackView<Span<'i>>) -> bool {
@@ -150,24 +200,24 @@ pub open spec fn post_none<'i>(st0: StackView<Span<'i>>, st1: StackView<Span<'i>
 pub trait NeverFailedTypedNode<'i, R: RuleType>: Sized {
     spec fn sem_nf(c: Ctx<'i>, pos: nat, st: Seq<Span<'i>>) -> (nat, Seq<Span<'i>>);
     fn parse_with<I: Input<'i>>(input: I, stack: &mut Stack<Span<'i>>) -> (r: (I, Self))
-        requires input.inv(), stack_all_wf(old(stack)@),
+        requires inv(input), stack_all_wf(old(stack)@),
         ensures post_some(input, old(stack)@, r.0, final(stack)@,
                     Self::sem_nf(input.ctx(), input.off(), old(stack)@.cur).0, Self::sem_nf(input.ctx(), input.off(), old(stack)@.cur).1);
     fn check_with<I: Input<'i>>(input: I, stack: &mut Stack<Span<'i>>) -> (r: I)
-        requires input.inv(), stack_all_wf(old(stack)@),
+        requires inv(input), stack_all_wf(old(stack)@),
         ensures post_some(input, old(stack)@, r, final(stack)@,
                     Self::sem_nf(input.ctx(), input.off(), old(stack)@.cur).0, Self::sem_nf(input.ctx(), input.off(), old(stack)@.cur).1);
 }
 pub trait TypedNode<'i, R: RuleType>: Sized {
     spec fn sem(c: Ctx<'i>, pos: nat, st: Seq<Span<'i>>) -> Res<'i>;
     fn try_parse_partial_with<I: Input<'i>>(input: I, stack: &mut Stack<Span<'i>>) -> (r: Option<(I, Self)>)
-        requires input.inv(), stack_all_wf(old(stack)@),
+        requires inv(input), stack_all_wf(old(stack)@),
         ensures match Self::sem(input.ctx(), input.off(), old(stack)@.cur) {
                     Some((p, s)) => r is Some && post_some(input, old(stack)@, (r->0).0, final(stack)@, p, s),
                     None => r is None && post_none(old(stack)@, final(stack)@),
                 };
     fn try_check_partial_with<I: Input<'i>>(input: I, stack: &mut Stack<Span<'i>>) -> (r: Option<I>)
-        requires input.inv(), stack_all_wf(old(stack)@),
+        requires inv(input), stack_all_wf(old(stack)@),
         ensures match Self::sem(input.ctx(), input.off(), old(stack)@.cur) {
                     Some((p, s)) => r is Some && post_some(input, old(stack)@, r->0, final(stack)@, p, s),
                     None => r is None && post_none(old(stack)@, final(stack)@),
@@ -178,7 +228,7 @@ pub trait TypedNode<'i, R: RuleType>: Sized {
 # closure contracts restating the callee's trait contract (Verus does not infer closure ensures)
 def cl_check(T, inp='input'):
     return ('''-> (r: Option<I>)
-            requires %(i)s.inv(), stack_all_wf(old(stack)@),
+            requires inv(%(i)s), stack_all_wf(old(stack)@),
             ensures match %(T)s::sem(%(i)s.ctx(), %(i)s.off(), old(stack)@.cur) {
                 Some((p, s)) => r is Some && post_some(%(i)s, old(stack)@, r->0, final(stack)@, p, s),
                 None => r is None && post_none(old(stack)@, final(stack)@),
@@ -187,11 +237,16 @@ def cl_check(T, inp='input'):
 
 def cl_parse(T, inp='input'):
     return ('''-> (r: Option<(I, %(T)s)>)
-            requires %(i)s.inv(), stack_all_wf(old(stack)@),
+            requires inv(%(i)s), stack_all_wf(old(stack)@),
             ensures match %(T)s::sem(%(i)s.ctx(), %(i)s.off(), old(stack)@.cur) {
                 Some((p, s)) => r is Some && post_some(%(i)s, old(stack)@, (r->0).0, final(stack)@, p, s),
                 None => r is None && post_none(old(stack)@, final(stack)@),
             }''' % {'T': T, 'i': inp})
+
+
+def hints(item):
+    """Make the stack lemmas available in every extracted body (anchor: function start)."""
+    return item.body_start_all('        broadcast use group_stack;')
 
 
 STACK_PARAM = "stack: &mut Stack<Span<'i>>"
@@ -220,19 +275,6 @@ def emit_restore_on_none(U):
         // the result, and on success the stack, are exactly f's, run on the stack as it was
         exists |s0: &mut Stack<Span<'i>>| (*s0)@.cur == old(stack)@.cur && (*s0)@.snaps == old(stack)@.snaps.push(old(stack)@.cur)
             && #[trigger] f.ensures((s0,), res) && (res is Some ==> final(stack)@.cur == final(s0)@.cur),''')
-    it.after('stack.snapshot();', '''    proof {
-        assert(stack@.snaps.drop_last() == old(stack)@.snaps);
-        assert(stack@.snaps.last() == old(stack)@.cur);
-        assert(stack_all_wf(stack@)) by {
-            assert forall|k: int| 0 <= k < stack@.snaps.len() implies stack_wf(#[trigger] stack@.snaps[k]) by {
-                if k < old(stack)@.snaps.len() { assert(stack@.snaps[k] == old(stack)@.snaps[k]); }
-            }
-        }
-    }''')
-    it.after('let res = f(stack);', '''    proof {
-        assert(stack@.snaps.drop_last() == old(stack)@.snaps);
-        assert(stack@.snaps.last() == old(stack)@.cur);
-        assert(stack_wf(stack@.snaps.last()));
-    }''')
+    hints(it)
     U.emit(it)
     return it
